@@ -3,6 +3,16 @@
 import json
 
 CLAIMED = {
+    "C01": dict(
+        technique="Coq: verified local checker for an untrusted nil-safety certificate over control-flow graphs of the whole parser regenerated from source; C12 totality for the lexer; Panic-free executable model of the SELECT core; search under recover",
+        text="C01: lexer — C12_lexer_total covers every byte string; parser, whole package — C01_nil_no_crash: in a nondeterministic semantics where every producer not certified never-nil may return nil, no run of the graphs regenerated from /repo/parser reaches a dereference of nil outside 5 reviewed sites (the certificate is untrusted and checked locally in the kernel), every index expression is guarded or reviewed (7), no unchecked type assertion, no explicit panic, no non-constant division; SELECT core — the executable model with explicit Panic outcomes never reaches one for any token list. Re-introducing any of the fixed nil dereferences, an unguarded index or assertion breaks an obligation and names the site. Search: corpus, mutants, short token sequences, token prefixes, nesting probes under recover.",
+        design_ref="DESIGN.md §4 C01",
+        note="Trusted: nilgen's translation rules (over-approximation of nil-relevant data flow); 13 reviewed sites weaken the theorem (listed in checks/c01_reviewed_sites.json and the evidence); stack exhaustion (fatal error) is outside the model."),
+    "C03": dict(
+        technique="Coq: same certificate in its 'no error recorded' reading (typed-nil stores into interface cells are Bad), AST-schema theorem for json.Marshal, SELECT-core model; reflection/Marshal/Explain search on accepted inputs",
+        text="C03: over the graphs regenerated from /repo/parser in the reading where recording a parse error halts the run: no typed-nil pointer is ever stored into an interface-typed cell (every pointer-to-interface conversion has a certainly non-nil operand, is return-declared and normalised by parseStatement, or is reviewed), ParseStatements appends only usable statements, and the AST schema admits no type on which json.Marshal fails other than cycles / non-finite floats; for the SELECT core no-error implies a well-formed statement whose printer model yields non-empty well-formed text. Search: every accepted input (corpus, mutants, token sequences) is walked by reflection, marshalled and explained.",
+        design_ref="DESIGN.md §4 C03",
+        note="Trusted: nilgen translation; printers outside the SELECT-core model are covered by the search only (partial)."),
     "C02": dict(
         technique="Coq: verified local checker for an untrusted potential certificate over the control-flow skeleton of the whole parser, regenerated from source on every run; obligation discharged by vm_compute",
         text="Theorem C02_parser_steps_linear: every run of the control-flow skeleton of the whole parser package (168 functions, regenerated from /repo/parser by a Go translator on every run), for every token list and every resolution of its data-dependent branches, halts within E_main + B*tokens steps. Proved once (Skel/SkelSound.v) for any skeleton accepted by the boolean checker; the per-run obligation check_prog skeleton = true is computed in the kernel, so deleting a break arm, removing a progress guard or adding a non-consuming loop breaks the build of Properties/C02.v and names the loop. The real step counter (verif hook) is compared with the proved bound on corpus, mutants, exhaustive short token sequences and nesting probes.",
@@ -23,6 +33,11 @@ CLAIMED = {
         text="C06: the driver model maps s1;...;sn (any extra/leading/trailing/doubled semicolons) to the per-statement results in order, threading nothing but remaining tokens and errors; for every byte string v the quoted spelling of v lexes to one STRING token (so a ';' inside never splits), and a separator of whitespace and complete comments (any bodies) is invisible to the token stream. Scripts of corpus/synthetic statements are compared statement by statement with the parts parsed alone.",
         design_ref="DESIGN.md §4 C06",
         note="Partial: that the real statement parsers stop exactly at the ';' after a valid statement (delimiter-respect) is a hypothesis of the driver theorem, tested only."),
+    "C07": dict(
+        technique="Coq: shift law of a depth-oblivious printer calculus instantiated by a depth/indent-use inventory regenerated from source + tail-insensitivity on the SELECT printer model + C10's no-hidden-state obligation; embedding harness",
+        text="C07_printer: every clean function of internal/explain denotes a trace of a printer calculus that cannot inspect depth (except two allow-listed `depth == 0` tests in explainExplainQuery), hence prints at depth d the depth-0 text shifted by d; the inventory of every use of depth/indent, every write and every (indent, depth) pair is regenerated from /repo and checked in the kernel; over the SELECT printer model a tail-free union prints identically under every union tail and each embedding context contains the query's rendering as a shifted block; no package-level or tree writes (C10). The parser half is covered by the harness: 14 embeddings per SELECT/WITH corpus query and composed queries, each explained after random histories and in fresh processes.",
+        design_ref="DESIGN.md §4 C07",
+        note="Partial: parser half (delimiter simulation) not proved. Trusted: depthgen's claim (D); Node dispatch hypothesis."),
     "C08": dict(
         technique="Coq proof by induction over expression trees on a hand-written model of the Pratt parser + independent reference printer; three-way extraction correspondence",
         text="C08_precedence_and_associativity: for every well-formed surface expression tree of the property's language (unbounded depth and operator count) and every follow context, explain_model (parse_model (print e ++ rest)) = reference tree of e (precedence climb OR < AND < NOT < comparison < || < additive < multiplicative < unary minus, left associative, ClickHouse function names, AND/OR/|| chains flattened); plus totality of the model. Tied to the code by comparing code, extracted model and extracted spec on all shapes with up to 3/4 binary operators and random deeper expressions.",
